@@ -1,0 +1,47 @@
+//! Verification hooks (compiled only with `--cfg lalrpop_verif`).
+//!
+//! The only place where LALRPOP iterates over a hash-ordered collection while producing
+//! output is type inference (`tyinfer::infer_types` walks the keys of a `HashMap`). This hook
+//! lets a harness choose that order explicitly instead of leaving it to `RandomState`: the
+//! keys are sorted and then rearranged into the permutation with the given index, so every
+//! order can be enumerated. It also counts how often the site was reached and how many keys
+//! it saw, so that a run that never exercised it is visibly vacuous.
+
+use std::sync::atomic::{AtomicUsize, Ordering};
+
+static PERMUTATION: AtomicUsize = AtomicUsize::new(0);
+static EVENTS: AtomicUsize = AtomicUsize::new(0);
+static MAX_KEYS: AtomicUsize = AtomicUsize::new(0);
+
+/// Choose the permutation (in the factorial number system over the sorted keys) applied at
+/// the next iteration sites. `0` is the sorted order.
+pub fn set_permutation(index: usize) {
+    PERMUTATION.store(index, Ordering::SeqCst);
+}
+
+/// (number of hooked iterations since the last reset, largest key count seen)
+pub fn take_stats() -> (usize, usize) {
+    (EVENTS.swap(0, Ordering::SeqCst), MAX_KEYS.swap(0, Ordering::SeqCst))
+}
+
+pub(crate) fn order<T: Ord>(mut keys: Vec<T>) -> Vec<T> {
+    EVENTS.fetch_add(1, Ordering::SeqCst);
+    MAX_KEYS.fetch_max(keys.len(), Ordering::SeqCst);
+    keys.sort();
+    let mut index = PERMUTATION.load(Ordering::SeqCst);
+    let mut out = Vec::with_capacity(keys.len());
+    // Lehmer code, least significant digit first
+    let mut radix = 1;
+    let mut digits = vec![];
+    for _ in 0..keys.len() {
+        digits.push(index % radix);
+        index /= radix;
+        radix += 1;
+    }
+    // digits[i] in 0..=i ; consume from the largest radix down
+    for d in digits.into_iter().rev() {
+        let d = d.min(keys.len() - 1);
+        out.push(keys.remove(d));
+    }
+    out
+}
